@@ -260,7 +260,8 @@ def impl(case):
                 lin = case['a'] * xs + case['b']
                 vals = np.take(lin, idx[ax]) + sum(10. ** (k + 1) * idx[k] for k in range(4) if k != ax)
                 v[:] = vals
-                if len({ln for k, ln in enumerate(shape) if k != ax} & {n}) == 0 and n != m:
+                # (as many new levels as old ones included: the weights are dim(new, old))
+                if len({ln for k, ln in enumerate(shape) if k != ax} & {n}) == 0:
                     o = interpvars(f, w.T.copy(), 'tzyx'[ax])
                     got = np.asarray(o.variables['V'][:])
                     want = np.moveaxis(np.tensordot(vals, w, axes=(ax, 0)), -1, ax)
